@@ -4,6 +4,7 @@ import time
 import common as C
 import boardcorr as B
 import uciproc
+import positions as P
 from props import searchprop as SP
 from props.c09 import POSITIONS
 
@@ -82,7 +83,33 @@ def run(ctx):
     games = [("fen 6k1/1R3p2/6p1/2Bp3p/3P2q1/P7/1P2rQ1K/5R2 b - - 4 44", []), ("startpos", ["e2e4", "e7e5", "g1f3"]),
              ("fen r3k2r/p1ppqpb1/bn2pnp1/3PN3/1p2P3/2N2Q1p/PPPBBPPP/R3K2R w KQkq - 0 1", []),
              ("fen 8/2p5/3p4/KP5r/1R3p1k/8/4P1P1/8 w - - 0 1", [])]
-    plies = 16 if ctx["tier"] == "quick" else 60
+    games += [("fen " + f, []) for f in P.bench_fens()[3:60:9]]
+    plies = 30 if ctx["tier"] == "quick" else 80
+    scripted = [("fen 6k1/1R3p2/6p1/2Bp3p/3P2q1/P7/1P2rQ1K/5R2 b - - 4 44", [([], 5), (["g4f4", "h2g2"], 2), (["g4f4", "h2g2"], 3)])]
+    for pos, steps in scripted:
+        fen = pos[4:]
+        eng = uciproc.Engine()
+        try:
+            for ms, d in steps:
+                poscmd = "position " + pos + (" moves " + " ".join(ms) if ms else "")
+                eng.send(poscmd)
+                before = len(eng.lines())
+                eng.send("go depth %d" % d)
+                idx = eng.wait_for(lambda l: l.startswith("bestmove"), 120, start=before)
+                if idx is None:
+                    break
+                for l in eng.lines()[before:idx + 1]:
+                    m = INFO_RE.match(l) if l.startswith("info") else None
+                    if m:
+                        lines_checked += 1
+                        pv = m.group(7).split()
+                        pv_items.append("match from_fen %s with Some b0 => match play b0 [%s] with Some _ => true | None => false end | None => false end"
+                                        % (B.coq_str(fen), "; ".join(B.coq_str(x) for x in ms + pv)))
+                        pv_meta.append((poscmd, d, l))
+        finally:
+            rc, t = eng.finish()
+            if rc is None:
+                eng.kill()
     for pos, ms0 in games:
         fen = "rnbqkbnr/pppppppp/8/8/8/8/PPPPPPPP/RNBQKBNR w KQkq - 0 1" if pos == "startpos" else pos[4:]
         eng = uciproc.Engine()
@@ -98,6 +125,9 @@ def run(ctx):
                 if idx is None:
                     break
                 out = eng.lines()[before:idx + 1]
+                bm0 = out[-1].split()
+                if len(bm0) < 2 or bm0[1] in ("a1a1", "(none)"):
+                    break      # the game is over (no legal move): outside the property
                 for l in out:
                     if l.startswith("info"):
                         lines_checked += 1
